@@ -28,7 +28,7 @@ class WorldC13(World):
     WALL = {'quick': 50, 'thorough': 560}
     STATE_CHANGING = ('mklist', 'new', 'attach', 'reorder', 'copy', 'reload')
     STATE_RULE = 'per species: (class, gas?, number of pressure adjustments, number of coverage models, shares its caller list)'
-    PROBES = ('gas-species-from-shared-list', 'nongas-after-gas-same-list', 'padj-disabled', 'padj-preattached', 'padj-in-dict-form', 'integer-temperatures', 'attach-in-place',
+    PROBES = ('gas-species-from-shared-list', 'nongas-after-gas-same-list', 'padj-disabled', 'padj-preattached', 'padj-in-dict-form', 'integer-temperatures', 'attach-in-place', 'dimensional-getters',
               'array-T-with-cov', 'two-or-more-models', 'reload-with-cov', 'reload-cycles>=2', 'copy-then-attach',
               'per-species-coverage-block', 'shomate-with-models', 'nasa9-with-models', 'reorder-with-two')
     REAL = ('pmutt.empirical.EmpiricalBase / GasPressureAdj', 'pmutt.empirical.nasa.Nasa / Nasa9 / SingleNasa9',
@@ -411,6 +411,22 @@ class WorldC13(World):
                                     'attached models = %r' % (k, r['cls'], 'array' if is_arr else 'scalar',
                                                               [d['k'] + d.get('j', '') for d in r['models']], qq, Ti,
                                                               cond, gv, wv))
+            # the same value in units: x R (heat capacity, entropy) or x R T (enthalpy, Gibbs energy), element-wise
+            name_ = {'CpoR': 'Cp', 'HoRT': 'H', 'SoR': 'S', 'GoRT': 'G'}[qq]
+            unit = ('J/mol/K', 'cal/mol/K', 'kJ/mol/K')[len(Ts) % 3] if qq in ('CpoR', 'SoR') else \
+                ('kJ/mol', 'kcal/mol', 'J/mol')[len(Ts) % 3]
+            Rv = self.cov.c.R(unit if unit.endswith('/K') else unit + '/K')
+            gotd = self.real(getattr(sp, 'get_' + name_), T=arg, units=unit, _what='get_%s(units=%r)' % (name_, unit), **kw)
+            gd = np.atleast_1d(np.asarray(gotd, dtype=float))
+            if gd.shape != g.shape:
+                raise Violation('array-shape', 'species %d get_%s(units) returned shape %r for %d temperatures' % (k, name_, gd.shape, len(Ts)))
+            for Ti, gv, wv in zip(Ts, gd.tolist(), want):
+                wd = wv * Rv * (1.0 if unit.endswith('/K') else Ti)
+                if not abs(gv - wd) <= 1e-9 * (abs(Rv) * (1.0 if unit.endswith('/K') else Ti)) * (1.0 + abs(wv)):
+                    raise Violation('bare-plus-models', 'species %d (%s, models %s) get_%s(T=%r, units=%r, %s) = %r; (bare polynomial + '
+                                    'attached models) x R%s = %r' % (k, r['cls'], [d['k'] + d.get('j', '') for d in r['models']],
+                                                                     name_, Ti, unit, cond, gv, '' if unit.endswith('/K') else ' T', wd))
+            ctx.probe('dimensional-getters')
         if worst > 0.1:
             ctx.near_miss['bare-plus-models'] += 1
         return round(worst, 6)
